@@ -108,6 +108,7 @@ fn run_case(seed: u64, idx: u64, all_rates: bool) -> CaseOut {
     let mut last_admitted_update: Vec<Option<u64>> = vec![None; n_bars];
     let mut updates_since_start: Vec<u64> = vec![0; n_bars];
     let mut max_stale = 0u64;
+    let mut nested = 0u64;
     let mut verdict = Verdict::Held;
     let feats = |extra: &str| {
         let mut f = vec![if limited { "limited-target".to_string() } else { "unlimited-target".to_string() }];
@@ -133,6 +134,50 @@ fn run_case(seed: u64, idx: u64, all_rates: bool) -> CaseOut {
         clock.fetch_add(g, Ordering::SeqCst);
         let now = clock.load(Ordering::SeqCst);
         let b = rng.usize(n_bars);
+        // ---- nested requests: update() takes its time stamp before running the closure; if other bars of
+        // the same MultiProgress are redrawn inside the closure (after time has passed), update()'s own
+        // redraw request reaches the shared limiter with a stamp OLDER than the limiter's last frame.
+        // The calls are made in non-decreasing time order; only the rate law is checked for them.
+        if multi && n_bars >= 2 && rng.chance(1, 25) {
+            let a = (b + 1) % n_bars;
+            let big = match rng.below(3) {
+                0 => rng.range(0, 3) * interval_ns,
+                1 => rng.range(5, 40) * interval_ns,
+                _ => rng.range(0, 2 * MS),
+            };
+            let k = rng.range(0, 25);
+            let newpos = rng.range(0, 2000);
+            let mut inner_frames: Vec<u64> = Vec::new();
+            let before = spy.flushes();
+            let t_call = clock.load(Ordering::SeqCst);
+            bars[a].update(|st| {
+                st.set_pos(newpos);
+                clock.fetch_add(big, Ordering::SeqCst);
+                for _ in 0..k {
+                    let f0 = spy.flushes();
+                    bars[b].tick();
+                    if spy.flushes() > f0 {
+                        inner_frames.push(clock.load(Ordering::SeqCst));
+                    }
+                }
+            });
+            model[a].0 = newpos;
+            let total = spy.flushes() - before;
+            requests += k + 1;
+            for t in &inner_frames {
+                frames.push(Frame { t: *t, forced: false, update_of: None });
+                last_paint = Some(*t);
+            }
+            if total > inner_frames.len() as u64 {
+                // update()'s own frame belongs to the instant update() was called (that is the request's time;
+                // the closure merely delayed its execution)
+                frames.push(Frame { t: t_call, forced: false, update_of: None });
+                last_paint = Some(last_paint.map_or(t_call, |p| p.max(t_call)));
+            }
+            skipped += k + 1 - total.min(k + 1);
+            nested += 1;
+            continue 'ops;
+        }
         let req = match rng.below(20) {
             0 => Req::Force,
             1 => Req::Println,
@@ -239,7 +284,8 @@ fn run_case(seed: u64, idx: u64, all_rates: bool) -> CaseOut {
     // ---- frame-rate law over all windows: count <= 20 + R*T + 1 -------------------------------------
     let mut max_excess: i128 = i128::MIN;
     if matches!(verdict, Verdict::Held) {
-        let ordinary: Vec<u64> = frames.iter().filter(|f| !f.forced).map(|f| f.t).collect();
+        let mut ordinary: Vec<u64> = frames.iter().filter(|f| !f.forced).map(|f| f.t).collect();
+        ordinary.sort();
         let burst: i128 = 20;
         let r_num: i128 = rate as i128; // frames per second allowed
         if !limited {
@@ -294,6 +340,7 @@ fn run_case(seed: u64, idx: u64, all_rates: bool) -> CaseOut {
     co.count("frames", frames.len() as u64);
     co.count("forced_frames", frames.iter().filter(|f| f.forced).count() as u64);
     co.count("skipped_requests", skipped);
+    co.count("nested_update_requests_with_stale_stamp", nested);
     co.max("staleness_ns", max_stale);
     co.max("window_excess_milliframes_over_RT", if max_excess > 0 { (max_excess / 1_000_000) as u64 } else { 0 });
     co.see("rates", rate as u64);
@@ -321,7 +368,7 @@ pub fn run(cfg: &RunCfg) -> PropResult {
     };
     PropResult {
         report,
-        rule: "each evaluation: one arrival process of 200-1500 requests (tick, set_message, inc, set_position, force_draw, println) with gaps from six families (0 ns bursts, sub-2ms noise, k*interval +-{0,1,999999} ns, around 1 ms, geometric up to 4 h, fractions of the interval) against one refresh rate (thorough: every rate 1..=255) on a limited or unlimited spy target, standalone or as MultiProgress target with 1-3 bars, driven on the virtual clock; non-trivial = at least 2 frames painted and at least 1 request skipped; distinct = (rate, target kind, arrival family, length, index)".into(),
+        rule: "each evaluation: one arrival process of 200-1500 requests (tick, set_message, inc, set_position, force_draw, println, and in MultiProgress worlds nested requests: update() whose closure lets time pass and redraws a sibling, so that update()'s own request reaches the shared limiter with a stale stamp) with gaps from six families (0 ns bursts, sub-2ms noise, k*interval +-{0,1,999999} ns, around 1 ms, geometric up to 4 h, fractions of the interval) against one refresh rate (thorough: every rate 1..=255) on a limited or unlimited spy target, standalone or as MultiProgress target with 1-3 bars, driven on the virtual clock; non-trivial = at least 2 frames painted and at least 1 request skipped; distinct = (rate, target kind, arrival family, length, index)".into(),
         exhaustive: false,
     }
 }
